@@ -40,9 +40,9 @@ def nontrivial(evs):
 INDEX_LEG = {
     "name": "index",
     "specdir": "labelindex",
-    "design": [{"module": "I_IpSets", "cfg": "MC_I_IpSets_sup.cfg", "thorough_cfg": "MC_I_IpSets_sup_full.cfg", "workers": 4,
+    "design": [{"module": "I_IpSets", "coverage": False, "cfg": "MC_I_IpSets_sup.cfg", "thorough_cfg": "MC_I_IpSets_sup_full.cfg", "workers": 4,
                 "timeout": 600, "thorough_timeout": 1700},
-               {"module": "I_IpSets", "cfg": "MC_I_IpSets_nosup.cfg", "thorough_cfg": "MC_I_IpSets_nosup_full.cfg", "workers": 4,
+               {"module": "I_IpSets", "coverage": False, "cfg": "MC_I_IpSets_nosup.cfg", "thorough_cfg": "MC_I_IpSets_nosup_full.cfg", "workers": 4,
                 "timeout": 600, "thorough_timeout": 1700}],
     "gen": {"module": "Gen_IpSets", "cfg": "Gen_ips_cover_small.cfg", "thorough_cfg": "Gen_ips_cover.cfg", "workers": 1,
             "max": 350, "thorough_max": 12000, "timeout": 600, "thorough_timeout": 1700},
